@@ -52,7 +52,7 @@ import (
 //        nl   base:data,…                next-level contents of every line base mentioned
 //        data zero-run compressed hex: tokens separated by '.', `zN` = N zero bytes, else hex bytes
 //   P <cycle> 1 ; …   post-mortem snapshot after a Go panic (mid-cycle: only the counters are judged) → pm ok | pm viol counters_nonneg
-//   E <run> status=<ok|err|panic:..|hang> cycles=<ticks> snaps=<distinct> [aux…]        → end
+//   E <run> status=<ok|err|panic:..|hang|stall> cycles=<ticks> snaps=<distinct> [aux…]        → end
 //
 // The Go side evaluates the invariant on the exported struct (c06Eval); the Lean driver evaluates
 // `Model.Msi.MsiInv` on the rendered line; checklib/c06.py compares the two answers line by line.
@@ -604,6 +604,9 @@ func c06RunCPU(runID, caseID int, vname string, n int, c cpuCase, maxEmit int) [
 	ctx.VerifSetOnTick(func() {
 		tick++
 		run.observe(tick, snap.VerifSnapshot(), ctx.Memory)
+		if run.rep > c06StallTicks {
+			panic(c06Stall{})
+		}
 	})
 	defer ctx.VerifRelease()
 	status := "ok"
@@ -612,6 +615,8 @@ func c06RunCPU(runID, caseID int, vname string, n int, c cpuCase, maxEmit int) [
 			if rec := recover(); rec != nil {
 				if _, ok := rec.(risc.VerifBudgetExceeded); ok {
 					status = "hang"
+				} else if _, ok := rec.(c06Stall); ok {
+					status = "stall"
 				} else {
 					d := strings.ReplaceAll(fmt.Sprint(rec), " ", "_")
 					if len(d) > 60 {
@@ -632,6 +637,13 @@ func c06RunCPU(runID, caseID int, vname string, n int, c cpuCase, maxEmit int) [
 	return append([]c06Line{hdr}, run.lines...)
 }
 
+// a run whose protocol snapshot has not changed for this many consecutive ticks (16 memory latencies)
+// is abandoned: it is a register-only stretch or a hung machine, either way nothing more to observe
+// (only coverage is lost: the snapshots up to here have been judged)
+const c06StallTicks = 16 * 309
+
+type c06Stall struct{}
+
 type c06Plan struct {
 	name     string
 	families []string
@@ -640,8 +652,8 @@ type c06Plan struct {
 }
 
 var c06Plans = map[string]c06Plan{
-	"c06":       {"c06", []string{"mem", "pair", "dep-mem", "tail", "mem", "sweep"}, 60, 250},
-	"c06-flush": {"c06-flush", []string{"br-mem", "shadow", "br-mem", "brsweep"}, 36, 120},
+	"c06":       {"c06", []string{"mem", "pair", "dep-mem", "tail", "mem", "sweep"}, 96, 250},
+	"c06-flush": {"c06-flush", []string{"br-mem", "shadow", "br-mem", "brsweep"}, 72, 120},
 }
 
 // c06GenCase: the shared families plus two of C06's own: `sweep` (more lines than L1 holds, so the
@@ -1078,9 +1090,9 @@ func c06RigStream(name string, withFlush bool) streamFn {
 	return func(dir string, seed int64, tier string) {
 		o := hx.Open(dir, name)
 		defer o.Close()
-		n := 200
+		n := 240
 		if withFlush {
-			n = 100
+			n = 120
 		}
 		if tier == "thorough" {
 			n *= 10
